@@ -863,11 +863,23 @@ fn stream_cfgs() -> Vec<StreamCfg> {
 }
 
 fn open_and_drain(sc: &StreamCfg, bytes: &[u8], mode: Option<Seipdv1ReadMode>) -> Result<u64, String> {
+    open_and_drain_ordered(sc, bytes, mode, 0)
+}
+
+/// `order`: in which order the (commutative) option setters are applied around set_seipdv1_read_mode
+fn open_and_drain_ordered(sc: &StreamCfg, bytes: &[u8], mode: Option<Seipdv1ReadMode>, order: usize) -> Result<u64, String> {
     let m = crate::msg::parse(&sc.cfg, bytes).map_err(|e| format!("parse: {e}"))?;
     let m = if m.is_encrypted() {
         let mut opts = DecryptionOptions::new();
         if let Some(md) = mode {
-            opts = opts.set_seipdv1_read_mode(md);
+            opts = match order {
+                0 => opts.set_seipdv1_read_mode(md),
+                1 => opts.set_seipdv1_read_mode(md).enable_legacy(),
+                2 => opts.enable_legacy().set_seipdv1_read_mode(md),
+                3 => opts.set_seipdv1_read_mode(md).enable_gnupg_aead(),
+                4 => opts.enable_gnupg_aead().enable_legacy().set_seipdv1_read_mode(md),
+                _ => opts.set_seipdv1_read_mode(md).enable_legacy().enable_gnupg_aead(),
+            };
         }
         let sk = sc.cfg.plain_session_key().ok_or("no session key")?;
         let ring = TheRing { session_keys: vec![sk], decrypt_options: opts, ..Default::default() };
@@ -933,18 +945,20 @@ fn checkfirst_case(t: &mut Tape, rec: &mut Rec) -> CaseResult {
     let idx = t.u64();
     let limit = [64 * KIB, 1 * MIB, 4 * MIB][(idx % 3) as usize];
     let factor = [(1u64, 2u64), (1, 1), (3, 2), (4, 1), (16, 1)][((idx / 3) % 5) as usize];
+    let order = ((idx / 15) % 6) as usize;
     let size = limit * factor.0 / factor.1;
     let mut cfg = MsgConfig::plain();
     cfg.chunk = 64 * 1024;
     cfg.enc = Enc::V1(SymmetricKeyAlgorithm::AES128);
     let sc = StreamCfg { name: "seipdv1-check-first", cfg, zeros: false, mode: Some(Seipdv1ReadMode::CheckFirst { max_message_size: limit as usize }) };
     rec.label(format!("check-first:size={}xlimit", if size > limit { ">1" } else if size == limit { "=1" } else { "<1" }));
-    rec.nontrivial((limit, size));
-    rec.describe(|| format!("SEIPDv1 message of {size} payload bytes read in CheckFirst mode with max_message_size {limit}"));
+    rec.nontrivial((limit, size, order));
+    rec.label(format!("check-first:option-order-{order}"));
+    rec.describe(|| format!("SEIPDv1 message of {size} payload bytes read in CheckFirst mode with max_message_size {limit} (option setters applied in order #{order})"));
     let mut out: Vec<u8> = Vec::with_capacity((size + size / 2 + 4 * MIB) as usize);
     sc.cfg.build_from_reader(PatternRead { remaining: size, state: 7, zeros: false }, PreSized { buf: &mut out }).unwrap_or_else(|e| panic!("harness: build failed: {e}"));
     rec.checkpoint("check-first read");
-    let (r, st) = measure(|| open_and_drain(&sc, &out, sc.mode));
+    let (r, st) = measure(|| open_and_drain_ordered(&sc, &out, sc.mode, order));
     // the encrypted body is payload + literal framing + prefix + MDC; clearly above / below the limit only
     if size >= limit {
         ensure_prop!(r.is_err(), "C19:check-first-limit-ignored", "a {size}-byte SEIPDv1 message was released in CheckFirst mode although max_message_size is {limit}");
@@ -1030,7 +1044,7 @@ fn iterated_case(t: &mut Tape, rec: &mut Rec) -> CaseResult {
 }
 
 pub fn run(ctx: &Ctx) {
-    ctx.set_rule("every case runs in a worker process under a counting allocator (peak live bytes, bytes allocated in total, number and largest of requests; single requests above 1 GiB are refused and show as a failed allocation of the case); (a) declared-but-absent: a generated or harvested packet body, one 1/2/4/5-octet field at a drawn (sweep: every) offset set to 2^16..2^32-1, the rest kept, cut, or replaced by 100..70000 filler bytes, framed accurately or under a five-octet / legacy four-octet / first partial / continuation partial / final-after-partial length that declares up to 2^32-1; oracle peak <= 192 KiB + 8 x supplied (6 MiB constant where a decompressor runs), largest request <= 96 KiB + 4 x supplied, total <= 2 MiB + 64 x supplied; (b) scaling families measured at n and 2n: total bytes and allocation count grow no faster than the input x1.3, object-returning entry points peak grows no faster than the input x1.3 and stays <= 64 x input + 1 MiB, streaming ones do not grow (+64 KiB); (c) messages of two sizes built from a generated source into a pre-sized sink and read back: peak independent of size (+256 KiB) for literal/compressed/signed/armored/SEIPDv2/SEIPDv1-streaming, SEIPDv1 CheckFirst refuses messages above max_message_size after buffering <= 2.5 x limit + 1 MiB; (d) Argon2: every (t,p) with the listed m values classified by the documented ceiling, beyond => Err with < 64 KiB allocated, cheap settings within => Ok with peak <= 1.1 x 2^m KiB; iterated S2K: every count octet, allocation independent of count and password length; non-trivial = artifact measured; distinct = (base, field, value, tail, framing) / (family, n) / configuration");
+    ctx.set_rule("every case runs in a worker process under a counting allocator (peak live bytes, bytes allocated in total, number and largest of requests; single requests above 1 GiB are refused and show as a failed allocation of the case); (a) declared-but-absent: a generated or harvested packet body, one 1/2/4/5-octet field at a drawn (sweep: every) offset set to 2^16..2^32-1, the rest kept, cut, or replaced by 100..70000 filler bytes, framed accurately or under a five-octet / legacy four-octet / first partial / continuation partial / final-after-partial length that declares up to 2^32-1; oracle peak <= 192 KiB + 8 x supplied (6 MiB constant where a decompressor runs), largest request <= 96 KiB + 4 x supplied, total <= 2 MiB + 64 x supplied; (b) scaling families measured at n and 2n: total bytes and allocation count grow no faster than the input x1.3, object-returning entry points peak grows no faster than the input x1.3 and stays <= 64 x input + 1 MiB, streaming ones do not grow (+64 KiB); (c) messages of two sizes built from a generated source into a pre-sized sink and read back: peak independent of size (+256 KiB) for literal/compressed/signed/armored/SEIPDv2/SEIPDv1-streaming, SEIPDv1 CheckFirst refuses messages above max_message_size after buffering <= 2.5 x limit + 1 MiB, whatever the order in which the decryption options were set (6 orders); (d) Argon2: every (t,p) with the listed m values classified by the documented ceiling, beyond => Err with < 64 KiB allocated, cheap settings within => Ok with peak <= 1.1 x 2^m KiB; iterated S2K: every count octet, allocation independent of count and password length; non-trivial = artifact measured; distinct = (base, field, value, tail, framing) / (family, n) / configuration");
     ctx.assume("time is not measured: linear work is decided on allocation volume and allocation count only; a worker that makes no progress for 120 s is inconclusive (exit 2)");
     let thorough = ctx.tier == Tier::Thorough;
     zoo::warm(&[Kind::Ed25519V4, Kind::Ed25519V6, Kind::RsaV4, Kind::P256V4]);
@@ -1053,7 +1067,7 @@ pub fn run(ctx: &Ctx) {
     if thorough {
         ctx.group_isolated("streaming-sizes-mid", Source::Indexed { count: cfgs.len() as u64 }, |t, rec| streaming_case(t, rec, &cfgs, MIB, 64 * MIB));
     }
-    ctx.group_isolated("seipdv1-check-first", Source::Indexed { count: 15 }, checkfirst_case);
+    ctx.group_isolated("seipdv1-check-first", Source::Indexed { count: 90 }, checkfirst_case);
 
     let ms: Vec<u8> = if thorough { (0..=255).collect() } else { vec![0, 1, 3, 4, 5, 6, 7, 8, 9, 12, 20, 21, 22, 23, 30, 31, 32, 33, 64, 128, 255] };
     ctx.group_isolated("argon2-parameters", Source::Indexed { count: 256 }, |t, rec| argon_case(t, rec, &ms));
